@@ -492,7 +492,7 @@ func init() {
 	engine.Register(engine.Spec[Case]{
 		ID:    "C09",
 		Level: "exploration",
-		Rule: "base programs = every statement/declaration derivation within 1 deviation (lint half) + 4 executable lifecycle programs (incl. ID-typed function arguments, a non-literal regex pattern, hash and client directors) (simulator half, 11 requests each through ServeHTTP with a stub backend); variants = each of 10 decorations (/* c */, # c, // c, /** c **/, /* c **/, /**/, a multi-line block comment, blank lines, tab+spaces, newline) in every gap between two consecutive tokens, one gap at a time (thorough / executable programs: pairs of gaps within a statement); a variant at a documented placeholder must parse; 2 programs the parser refuses (duplicate case labels) must stay refused with a comment at any placeholder; 3 programs with an @scope annotation x an ordinary comment before / after / around the annotation comment; elsewhere an unparseable variant is skipped; oracle: multiset of (rule, severity, message) and the fatal error equal to the base program's, and flows/logs/restarts/response identical; non-trivial = variant parses and differs from base; distinct = distinct (base, variant) Round 3: decorations carriage-return and CRLF, and every base program with CRLF line ends throughout.",
+		Rule: "base programs = every statement/declaration derivation within 1 deviation (lint half) + 4 executable lifecycle programs (incl. ID-typed function arguments, a non-literal regex pattern, hash and client directors) (simulator half, 11 requests each through ServeHTTP with a stub backend); variants = each of 10 decorations (/* c */, # c, // c, /** c **/, /* c **/, /**/, a multi-line block comment, blank lines, tab+spaces, newline) in every gap between two consecutive tokens, one gap at a time (thorough / executable programs: pairs of gaps within a statement); a variant at a documented placeholder must parse; 2 programs the parser refuses (duplicate case labels) must stay refused with a comment at any placeholder; 3 programs with an @scope annotation x an ordinary comment before / after / around the annotation comment; elsewhere an unparseable variant is skipped; oracle: multiset of (rule, severity, message) and the fatal error equal to the base program's, and flows/logs/restarts/response identical; non-trivial = variant parses and differs from base; distinct = distinct (base, variant) Round 3: decorations carriage-return and CRLF, and every base program with CRLF line ends throughout. Round 4: decorations whose comment text looks like code (parentheses, quotes, a semicolon); two lint-only programs whose diagnostics depend on counting capture groups.",
 		Gen:  gen09,
 		Key:  func(c Case) string { return c.Base + "\x00" + c.Variant },
 		Run:  run,
